@@ -116,6 +116,8 @@ var whitelist = []fnSpec{
 	// fastcodec.go over an abstract FastCodec (BLength / FastWriteNocopy / FastRead as parameters;
 	// FastWriteNocopy stores into its buffer: mutatingMethods) and dirtmake.Bytes as a content oracle
 	{"thrift", "", "FastMarshal"}, {"thrift", "", "FastUnmarshal"}, {"thrift", "", "MarshalFastMsg"},
+	// container/strmap: read-only views of the generic StrMap[V] (ext3c.go)
+	{"strmap", "StrMap", "Len"}, {"strmap", "StrMap", "Item"}, {"strmap", "StrMap", "Get"},
 }
 
 // Coq names that differ from g_<pkg>_<Func> (methods of several types with the same name)
@@ -204,11 +206,14 @@ type fnInfo struct {
 	errKeys               map[string]bool // error values (ecode keys) the function or its callees can produce
 	errCmps               []errCmp        // comparisons err == <error variable> to be validated at the end
 	// phase 3 (ext3.go)
-	hasRange  bool                    // contains a range statement over a map
-	nilable   map[*types.Var]bool     // abstract objects (interface-typed parameters) that are compared with nil: they get a nil flag
-	dirtOwned map[*types.Var]bool     // local buffers x := dirtmake.Bytes(n, n)
-	regionOf  map[*types.Var]*absRoot // local []byte variables that are windows into an abstract object's memory
-	oracles   []oracle                // the enumeration orders of its map range statements (and of its callees'): trailing parameters
+	hasRange   bool                    // contains a range statement over a map
+	nilable    map[*types.Var]bool     // abstract objects (interface-typed parameters) that are compared with nil: they get a nil flag
+	recvRO     bool                    // the receiver is a read-only view (ext3c.go): some fields have no binder
+	typeParams []*types.TypeParam      // value type parameters of the receiver's type: (T_V : Type) (z_V : T_V)
+	elemView   map[*types.Var]bool     // local variables e := &x[i] that are copies of an element of a read-only slice
+	dirtOwned  map[*types.Var]bool     // local buffers x := dirtmake.Bytes(n, n)
+	regionOf   map[*types.Var]*absRoot // local []byte variables that are windows into an abstract object's memory
+	oracles    []oracle                // the enumeration orders of its map range statements (and of its callees'): trailing parameters
 }
 
 type errCmp struct {
@@ -355,6 +360,12 @@ func (c *fctx) coqType(n ast.Node, t types.Type) string {
 	if _, _, ok := intTypeInfo(t); ok {
 		return "Z"
 	}
+	if tp, ok := valueTypeParam(t); ok {
+		return "T_" + tp.Obj().Name()
+	}
+	if ct, ok := roSliceType(t); ok {
+		return ct
+	}
 	if k, v, ok := mapKV(t); ok {
 		_, _, ki := intTypeInfo(k)
 		if !ki && !isString(k) {
@@ -370,6 +381,12 @@ func (c *fctx) coqType(n ast.Node, t types.Type) string {
 }
 
 func (c *fctx) zero(n ast.Node, t types.Type) string {
+	if tp, ok := valueTypeParam(t); ok {
+		return "z_" + tp.Obj().Name()
+	}
+	if ct, ok := roSliceType(t); ok {
+		return "(nil : " + strings.Trim(ct, "()") + ")"
+	}
 	switch ct := c.coqType(n, t); ct {
 	case "gerror":
 		return "gnil"
@@ -573,6 +590,9 @@ func (c *fctx) identTerm(id *ast.Ident) string {
 		if _, isStruct := structFields(o.Type()); isStruct {
 			c.failf(id, "struct variable %s used as a whole (only its fields are translated)", id.Name)
 		}
+		if c.f.elemView[o] {
+			c.failf(id, "%s is a view of a slice element: used as a value (only %s.f is translated)", id.Name, id.Name)
+		}
 		if c.f.regionOf[o] != nil {
 			c.failf(id, "%s is a window into an abstract object's memory: used as a value (only x[i] = v, PutUintK(x[a:b], v), y := x[a:b], len(x), return x are translated)", id.Name)
 		}
@@ -753,6 +773,15 @@ func (c *fctx) expr(e ast.Expr) (pre []string, term string) {
 			p1, m := c.expr(x.X)
 			p2, i := c.exprAs(x.Index, k)
 			return append(p1, p2...), fmt.Sprintf("(gmap_get %s %s %s %s)", c.keyEqb(e, k), m, i, c.zero(e, v))
+		}
+		if _, ok := roSliceType(c.info.TypeOf(x.X)); ok {
+			if _, isStruct := structFields(c.info.TypeOf(x)); isStruct {
+				c.failf(e, "element of a slice of structs used as a whole (only e := &x[i] is translated)")
+			}
+			p1, a := c.expr(x.X)
+			p2, i := c.expr(x.Index)
+			t := c.fresh()
+			return append(append(p1, p2...), fmt.Sprintf("do %s <- gelem %s %s;", t, a, i)), t
 		}
 		if !isBytesLike(c.info.TypeOf(x.X)) {
 			c.failf(e, "index expression on %s", c.info.TypeOf(x.X))
@@ -996,6 +1025,10 @@ func (c *fctx) call(x *ast.CallExpr) (pre []string, terms []string) {
 					p, a := c.expr(x.Args[0])
 					return p, []string{"(gmap_len " + c.keyEqb(x, k) + " " + a + ")"}
 				}
+				if _, ok := roSliceType(c.info.TypeOf(x.Args[0])); ok {
+					p, a := c.expr(x.Args[0])
+					return p, []string{"(glen " + a + ")"}
+				}
 				if !isBytesLike(c.info.TypeOf(x.Args[0])) {
 					c.failf(x, "len of %s", c.info.TypeOf(x.Args[0]))
 				}
@@ -1174,6 +1207,11 @@ func (c *fctx) lhsName(e ast.Expr) string {
 	case *ast.StarExpr: // *p = ... for a pointer parameter p
 		return c.assignVar(c.derefName(x))
 	case *ast.SelectorExpr: // s.f = ... for a local struct variable s
+		if bid, ok := ast.Unparen(x.X).(*ast.Ident); ok {
+			if bv, ok := c.info.Uses[bid].(*types.Var); ok && c.f.elemView[bv] {
+				c.failf(e, "store through %s, a view of a slice element (the slice is read-only)", bid.Name)
+			}
+		}
 		if name, ok := c.fieldVar(x); ok {
 			return c.assignVar(name)
 		}
@@ -1448,6 +1486,9 @@ func (c *fctx) assign(s *ast.AssignStmt) []string {
 		return append(pre, c.bindLine(s.Lhs[0], name, term))
 	}
 	if pre, ok := c.commaOk(s); ok {
+		return pre
+	}
+	if pre, ok := c.elemViewAssign(s); ok {
 		return pre
 	}
 	if len(s.Lhs) == 1 && len(s.Rhs) == 1 {
@@ -2174,7 +2215,16 @@ func header() string {
      * a method of an abstract object listed in mutatingMethods (FastCodec.FastWriteNocopy) stores
        into its []byte argument: its model returns the final contents of that argument after the
        state; an interface-typed parameter of a method of an abstract object must be handed the
-       literal nil and is not a parameter of the model. *)
+       literal nil and is not a parameter of the model;
+     * READ-ONLY VIEWS (container/strmap Get / Len / Item): a method of *S that never assigns
+       through its receiver, for a struct S with slice fields: a field []T (T an integer type) is
+       a list Z, a field []E (E a struct of such fields) a list of tuples, x[i] is GoSem.gelem,
+       e := &x[i] / e = &x[j] is a COPY of the element (one variable per field; a store through e
+       is refused), a field of any other type (maphash.Seed) has no binder and may only be handed to
+       an external function listed with that argument dropped (maphash.String(m.seed, s) is the
+       parameter x_maphash_String : bytes -> res Z, "the hash function of this instance"); a type
+       parameter V with an empty constraint is a value type: binders (T_V : Type) (z_V : T_V), the
+       type and its zero value.  Sound because nothing in the function can change the slices. *)
 From GV Require Import Lib.Bytes Lib.Res Lib.GoSem.
 Open Scope Z_scope.
 `
